@@ -242,9 +242,9 @@ class Subject(object):
         return "ok"
 
     def can_rewire(self):
-        """exchanging stream / formatter must leave the decoration switch as the description fixed it"""
-        r = self.real
-        return r["kind"] != "sections" and not (r["fmt"] in ("plain", "null", "keep") and r.get("ansi"))
+        """a stream / formatter of the same kind leaves the decoration as the description fixed it (the setters decide
+        like the constructor); sections that share one stream are not re-streamed one by one"""
+        return self.real["kind"] != "sections"
 
     def rewire(self, g, what):
         """Output.set_stream / set_formatter (IO.set_formatter for both outputs) after construction, with a stream /
@@ -381,8 +381,6 @@ def realizations(kind, full):
         for fmt in fmts:
             for inner in inners:
                 for ansi in (False, True):
-                    if fmt == "null" and ansi:
-                        continue  # NullFormatter has no disable_ansi(): Output() cannot be built on an ANSI stream
                     base = {"kind": kind, "fmt": fmt, "inner": inner, "ansi": ansi}
                     if kind == "section":
                         out.append(dict(base, via="parent"))
@@ -427,12 +425,9 @@ def usable(reals, skipped):
 
 
 def expected_unconstructible(real):
-    """objects the pinned library cannot build (side observations, see the notes): NullIO().section() (IO.section calls
-    self.__class__(input, output, error_output)); an Output on an ANSI stream with a NullFormatter (no disable_ansi) -
-    which a NullIO gets when its streams are exchanged for ANSI-capable ones"""
-    if real.get("cls") == "NullIO" and (real["kind"] == "iosec" or (real.get("ansi") and real["fmt"] == "keep")):
-        return True
-    return real["fmt"] == "null" and bool(real.get("ansi"))
+    """the one object of the family the library cannot build (side observation, see the notes): NullIO().section()
+    (IO.section calls self.__class__(input, output, error_output), NullIO takes no arguments)"""
+    return real.get("cls") == "NullIO" and real["kind"] == "iosec"
 
 
 def broken_objects(skipped):
